@@ -111,6 +111,8 @@ def run(ctx):
     ctx.check(len(pe) == 1 and pe[0].get("derived"), "H4", "HeaderTagType:eq", "HeaderTagType's PartialEq is derived on a fieldless enum: equality of discriminants = of the stored numbers",
               pe[0].get("span", "") if pe else "", how="derived", why=str(len(pe)))
     it = F.insts.get(MH + "iter")
+    if it is None:
+        ctx.fail("ANCHOR", "Multiboot2Header::iter", "Multiboot2Header::iter exists", "", "missing")
     if it is not None:
         rt, _ = an.of(F, it).ret()
         n_ = N(rt) if rt is not None else None
